@@ -19,6 +19,19 @@
 //!   injected (re)transmission is accepted. A copy whose bytes differ from the first transmission is
 //!   checked as a response of its own. Whether and how often copies are sent is C06's subject, not
 //!   asserted here.
+//!
+//! Two more (round 4):
+//!
+//! * how a connection takes what ezk writes to it — a byte stream accepts a write call for as many bytes as
+//!   its send buffer has room (`AsyncWrite::poll_write` returns a short count) and reports a full buffer in
+//!   between (`Poll::Pending`). The mock connection is told to take 1..8192 bytes per write call (or
+//!   everything, as before), optionally with a full-buffer report before each piece; the very first message of
+//!   an outbound connection (the set-up request) is subject to it as well. The oracle is the peer's view of
+//!   the stream: everything the peer read must be complete messages — a head and exactly as many body bytes
+//!   as its Content-Length announces — one per response, on the connection the request arrived on;
+//! * responses with a body — the TU attaches a body of 0..20000 bytes to any of its responses before it hands
+//!   it to the transaction: the Content-Length on the wire has to be the size of that body and that many
+//!   bytes have to follow the head (the content of the body is not compared).
 
 use crate::engine::*;
 use crate::props::c06::ChannelLayer;
@@ -325,6 +338,17 @@ pub struct Case {
     /// what happens after the last response was handed to the transaction
     #[serde(default)]
     pub history: Vec<Ev>,
+    /// connection transports: room in the send buffer of ezk's end of the connection — each write call of ezk
+    /// on it is accepted for at most that many bytes (`AsyncWrite::poll_write` returns the short count, the
+    /// next call takes the next piece). 0 = every write call is taken whole (all earlier replay files)
+    #[serde(default)]
+    pub conn_chunk: u16,
+    /// with `conn_chunk` > 0: before each piece the connection reports a full buffer once (`Poll::Pending`, woken at once)
+    #[serde(default)]
+    pub conn_stall: bool,
+    /// length of the body the TU attaches to the n-th response before handing it to the transaction (missing / 0 = none)
+    #[serde(default)]
+    pub resp_bodies: Vec<u16>,
 }
 
 /// one datagram transport the endpoint owns
@@ -432,6 +456,10 @@ impl Case {
         }
         v
     }
+    /// length of the body of the n-th response
+    pub fn resp_body_len(&self, n: usize) -> usize {
+        self.resp_bodies.get(n).copied().unwrap_or(0) as usize
+    }
     pub fn request_bytes(&self) -> Vec<u8> {
         let r = &self.req;
         let (v, f, t, i, l) = if r.compact {
@@ -470,6 +498,11 @@ impl Case {
         b.extend_from_slice(&body);
         b
     }
+}
+
+/// the body the TU attaches to a response
+fn resp_body(len: usize) -> Vec<u8> {
+    (0..len).map(|k| b"v=0\r\no=- 2 2 IN IP4 y\r\ns=-\r\n"[k % 28]).collect()
 }
 
 // ------------------------------------------------------------------------------------------------
@@ -816,6 +849,34 @@ fn s_events() -> BoxedStrategy<(Vec<Ev>, Vec<Ev>)> {
     (early, history).boxed()
 }
 
+/// how ezk's end of a connection takes what is written to it: (conn_chunk, conn_stall)
+fn s_conn_write() -> BoxedStrategy<(u16, bool)> {
+    (
+        prop_oneof![
+            3 => Just(0u16),
+            // a response head is a few hundred bytes: most limits cut it into several pieces
+            2 => 1u16..=16,
+            3 => 17u16..=300,
+            2 => 301u16..=2000,
+            1 => 2001u16..=8192,
+        ],
+        prop_oneof![2 => Just(false), 1 => Just(true)],
+    )
+        .prop_map(|(chunk, stall)| (chunk, stall && chunk > 0))
+        .boxed()
+}
+
+/// body lengths of up to three responses
+fn s_resp_bodies() -> BoxedStrategy<Vec<u16>> {
+    let one = prop_oneof![
+        6 => Just(0u16),
+        3 => 1u16..=300,
+        1 => 301u16..=3000,
+        1 => 3001u16..=20000,
+    ];
+    proptest::collection::vec(one, 3).boxed()
+}
+
 pub fn strategy() -> BoxedStrategy<Case> {
     (
         s_req(),
@@ -833,12 +894,17 @@ pub fn strategy() -> BoxedStrategy<Case> {
         any::<u8>(),
         s_locals(),
         s_events(),
+        (s_conn_write(), s_resp_bodies()),
     )
-        .prop_map(|(req, src_same, src_alt, src_port, tp, responses, rng, (locals, arrive_on), (early, history))| {
+        .prop_map(|(req, src_same, src_alt, src_port, tp, responses, rng, (locals, arrive_on), (early, history), ((conn_chunk, conn_stall), mut resp_bodies))| {
             let datagram = matches!(tp, Tp::Datagram);
             // connection transports: the peer never retransmits and no virtual time passes (keep-alive and
             // idle handling of connections is not C09's subject); only the TU's own retransmission remains
             let keep = |e: &Ev| datagram || matches!(e, Ev::TuRetransmit);
+            resp_bodies.truncate(responses.len());
+            if resp_bodies.iter().all(|b| *b == 0) {
+                resp_bodies.clear();
+            }
             Case {
                 req,
                 src_same,
@@ -852,6 +918,9 @@ pub fn strategy() -> BoxedStrategy<Case> {
                 arrive_on: if datagram { arrive_on } else { 0 },
                 early: early.into_iter().filter(|e| keep(e)).collect(),
                 history: history.into_iter().filter(|e| keep(e)).collect(),
+                conn_chunk: if datagram { 0 } else { conn_chunk },
+                conn_stall: !datagram && conn_stall,
+                resp_bodies,
             }
         })
         .prop_map(exclude_open_findings)
@@ -980,6 +1049,9 @@ pub fn status_cases(_tier: Tier) -> Vec<Case> {
                     arrive_on: 0,
                     early: vec![],
                     history: vec![],
+                    conn_chunk: 0,
+                    conn_stall: false,
+                    resp_bodies: vec![],
                 });
             }
         }
@@ -1048,6 +1120,9 @@ pub fn grid_cases(_tier: Tier) -> Vec<Case> {
                                         arrive_on: 0,
                                         early: vec![],
                                         history: vec![],
+                                        conn_chunk: 0,
+                                        conn_stall: false,
+                                        resp_bodies: vec![],
                                     });
                                 }
                             }
@@ -1117,6 +1192,9 @@ pub fn socket_cases(_tier: Tier) -> Vec<Case> {
                                     arrive_on,
                                     early: vec![],
                                     history: if retx { vec![Ev::Retx(RSrc::Same), Ev::TuRetransmit] } else { vec![] },
+                                    conn_chunk: 0,
+                                    conn_stall: false,
+                                    resp_bodies: vec![],
                                 });
                             }
                         }
@@ -1168,10 +1246,67 @@ pub fn retransmission_cases(_tier: Tier) -> Vec<Case> {
                                         arrive_on: 1,
                                         early: early.clone(),
                                         history: history.clone(),
+                                        conn_chunk: 0,
+                                        conn_stall: false,
+                                        resp_bodies: vec![],
                                     });
                                 }
                             }
                         }
+                    }
+                }
+            }
+        }
+    }
+    out
+}
+
+/// what a connection does with the bytes ezk writes to it: connection kind(4) x room per write call(7) x
+/// buffer-full between the pieces(2) x body of the responses(3) x shape of the answer(4)
+pub fn connection_write_cases(_tier: Tier) -> Vec<Case> {
+    let tps = [
+        Tp::Inbound { secure: false },
+        Tp::Inbound { secure: true },
+        Tp::Outbound { secure: false },
+        Tp::Outbound { secure: true },
+    ];
+    // (INVITE, responses, history)
+    let shapes: Vec<(bool, Vec<(u16, Option<String>)>, Vec<Ev>)> = vec![
+        (false, vec![(200, None)], vec![]),
+        (false, vec![(100, None), (404, Some("Nobody Here".into()))], vec![]),
+        (true, vec![(180, None), (200, None)], vec![Ev::TuRetransmit]),
+        (true, vec![(100, None), (486, None)], vec![]),
+    ];
+    let mut out = vec![];
+    for tp in tps {
+        for chunk in [1u16, 3, 16, 100, 256, 1000, 4096] {
+            for stall in [false, true] {
+                for body in [0u16, 40, 6000] {
+                    for (invite, responses, history) in &shapes {
+                        let vias = vec![
+                            simple_via(H::V4([192, 0, 2, 9]), Some(5062), vec![VP::Branch("z9hG4bKc09conn".into()), VP::Rport(None)]),
+                            simple_via(H::Name("proxy1.example.net".into()), None, vec![VP::Branch("z9hG4bKc09low".into())]),
+                        ];
+                        let mut req = simple_req(*invite, vias);
+                        req.vias[0].transport = if matches!(tp, Tp::Inbound { secure: true } | Tp::Outbound { secure: true }) { "TLS".into() } else { "TCP".into() };
+                        out.push(Case {
+                            req,
+                            src_same: false,
+                            src_alt: H::V4([198, 51, 100, 23]),
+                            src_port: 40123,
+                            tp,
+                            responses: responses.clone(),
+                            rng: 0,
+                            excluded: vec![],
+                            locals: vec![],
+                            arrive_on: 0,
+                            early: vec![],
+                            history: history.clone(),
+                            conn_chunk: chunk,
+                            conn_stall: stall,
+                            // the provisional response stays without body, the final one carries it
+                            resp_bodies: if body == 0 { vec![] } else { vec![0, body] },
+                        });
                     }
                 }
             }
@@ -1189,6 +1324,8 @@ pub struct RespObs {
     pub supplied: Option<String>,
     pub msgs: Vec<Sent>,
     pub call_err: Option<String>,
+    /// length of the body the TU attached
+    pub body_len: usize,
 }
 
 #[derive(Debug, Default)]
@@ -1202,6 +1339,8 @@ pub struct Observed {
     pub tp_id: u32,
     /// bytes the peer read from that connection
     pub conn_received: usize,
+    /// the bytes the peer read from that connection behind the last complete message (at most 120 of them)
+    pub conn_tail: Vec<u8>,
     pub connects: usize,
     pub setup_error: Option<String>,
     /// bound address of the transport the request arrived on (datagram)
@@ -1249,6 +1388,11 @@ async fn answer(
         let before = log.len();
         let mut response =
             endpoint.create_response(&req, Code::from(*code), reason.as_ref().map(|r| BytesStr::from(r.as_str())));
+        let body_len = case.resp_body_len(obs.resp.len());
+        if body_len > 0 {
+            response.msg.headers.insert(Name::CONTENT_TYPE, "application/sdp");
+            response.msg.body = bytes::Bytes::from(resp_body(body_len));
+        }
         let mut call_err = None;
         let provisional = (100..200).contains(code);
         tsx = match tsx {
@@ -1288,12 +1432,24 @@ async fn answer(
             Tsx::Done => Tsx::Done,
         };
         settle().await;
+        if case.conn_chunk > 0 {
+            // the TU task that sends an INVITE failure response needs up to one poll per piece and one per
+            // full-buffer report (tokio's cooperative budget also makes a task yield after 128 write calls):
+            // give it the polls a message of that size can need (fixed bound)
+            let polls = 2 * (case.request_bytes().len() + body_len + 1024) / case.conn_chunk as usize;
+            let mut rounds = polls / 40 + 2;
+            while log.len() == before && rounds > 0 {
+                settle().await;
+                rounds -= 1;
+            }
+        }
         let msgs: Vec<Sent> = log.snapshot().into_iter().skip(before).collect();
         obs.resp.push(RespObs {
             code: *code,
             supplied: reason.clone(),
             msgs,
             call_err,
+            body_len,
         });
     }
     drop(req);
@@ -1356,6 +1512,13 @@ async fn run_history(
     }
 }
 
+/// what the peer read on `conn` behind the last complete message
+fn conn_tail(conn: &crate::world::stream::PeerConn, log: &WireLog) -> Vec<u8> {
+    let framed: usize = log.snapshot().iter().filter(|s| s.tp == conn.id).map(|s| s.bytes.len()).sum();
+    let got = conn.received.lock();
+    got.iter().skip(framed).take(120).copied().collect()
+}
+
 pub fn run(case: &Case) -> Observed {
     let case = case.clone();
     run_world(case.rng as u64, |clock| async move {
@@ -1416,6 +1579,8 @@ pub fn run(case: &Case) -> Observed {
                     }
                     dialer.dial(&src_text)
                 };
+                conn.write_chunk.store(case.conn_chunk as u32, std::sync::atomic::Ordering::SeqCst);
+                conn.write_stall.store(case.conn_stall, std::sync::atomic::Ordering::SeqCst);
                 let endpoint = b.build();
                 settle().await;
                 obs.tp_id = conn.id;
@@ -1428,6 +1593,7 @@ pub fn run(case: &Case) -> Observed {
                 }
                 settle().await;
                 obs.conn_received = conn.received_len();
+                obs.conn_tail = conn_tail(&conn, &log);
                 obs.connects = p_tcp.connects.lock().len() + p_tls.connects.lock().len();
             }
             Tp::Outbound { secure } => {
@@ -1442,6 +1608,9 @@ pub fn run(case: &Case) -> Observed {
                     b.add_transport_factory(Arc::new(f));
                     p
                 };
+                // the connection ezk is about to open takes its very first message (the set-up request) in pieces already
+                probe.write_chunk.store(case.conn_chunk as u32, std::sync::atomic::Ordering::SeqCst);
+                probe.write_stall.store(case.conn_stall, std::sync::atomic::Ordering::SeqCst);
                 let endpoint = b.build();
                 let uri_text = format!("sip:peer@{source};transport={}", if secure { "tls" } else { "tcp" });
                 let uri: SipUri = match uri_text.parse() {
@@ -1484,6 +1653,7 @@ pub fn run(case: &Case) -> Observed {
                 }
                 settle().await;
                 obs.conn_received = conn.received_len();
+                obs.conn_tail = conn_tail(&conn, &log);
                 obs.connects = probe.connects.lock().len();
                 drop(client);
                 drop(target);
@@ -1728,6 +1898,14 @@ fn check_mirror(case: &Case, r: &RespObs, m: &WireMsg, out: &mut CaseOut) {
         }
     }
 
+    // --- body: "a Content-Length equal to its body size", the body being the one the TU attached
+    // (that the header agrees with the bytes that follow the head is checked for every message on the wire)
+    if m.raw_body_len != r.body_len {
+        out.fail(
+            "c09.wire/body-on-the-wire-is-not-the-body-of-the-response",
+            format!("the TU attached a body of {} bytes to response {}, {} bytes follow the head on the wire (Content-Length {:?})", r.body_len, r.code, m.raw_body_len, m.content_length_headers()),
+        );
+    }
 }
 
 /// sec. 18.2.2 / RFC 3581 destination of one transmission of a response over a datagram transport.
@@ -2049,6 +2227,39 @@ pub fn check(case: &Case, out: &mut CaseOut) {
     if obs.tu_retransmits > 0 {
         out.class("history:Accepted::retransmit called");
     }
+    for r in &obs.resp {
+        out.class(match r.body_len {
+            0 => "response-body:none",
+            1..=300 => "response-body:1-300 bytes",
+            301..=3000 => "response-body:301-3000 bytes",
+            _ => "response-body:3001-20000 bytes",
+        });
+    }
+    if !matches!(case.tp, Tp::Datagram) {
+        if case.conn_chunk == 0 {
+            out.class("conn-write:every write call taken whole (as before)");
+        } else {
+            let chunk = case.conn_chunk as usize;
+            for r in &obs.resp {
+                // observed size of the message; nothing on the wire = no label
+                if let Some(first) = r.msgs.first() {
+                    let pieces = (first.bytes.len() + chunk - 1) / chunk;
+                    out.class(match pieces {
+                        0 | 1 => "conn-write:limit >= message (one write call)",
+                        2..=4 => "conn-write:response taken in 2-4 pieces",
+                        5..=32 => "conn-write:response taken in 5-32 pieces",
+                        _ => "conn-write:response taken in more than 32 pieces",
+                    });
+                    if pieces > 1 && case.conn_stall {
+                        out.class("conn-write:buffer reported full between the pieces (Pending)");
+                    }
+                    if pieces > 1 && r.body_len > 0 {
+                        out.class("conn-write:response with body taken in pieces");
+                    }
+                }
+            }
+        }
+    }
 
     // --- delivery
     if let Some(e) = &obs.setup_error {
@@ -2081,10 +2292,18 @@ pub fn check(case: &Case, out: &mut CaseOut) {
             }
         }
     }
-    if !matches!(case.tp, Tp::Datagram) && stream_bytes != obs.conn_received {
+    // a connection is a byte stream: the peer finds the end of a message by its Content-Length, so everything it
+    // read must be complete messages (head + as many body bytes as the head announces), nothing more, nothing less
+    let unframed = !matches!(case.tp, Tp::Datagram) && stream_bytes != obs.conn_received;
+    if unframed {
         out.fail(
             "c09.wire/stream-not-framed-by-content-length",
-            format!("peer read {} bytes on the connection, complete messages account for {stream_bytes}", obs.conn_received),
+            format!(
+                "peer read {} bytes on the connection (each write call taken for at most {} bytes; 0 = whole), complete messages (head + Content-Length body bytes) account for {stream_bytes}; behind the last complete message it read {:?}",
+                obs.conn_received,
+                case.conn_chunk,
+                String::from_utf8_lossy(&obs.conn_tail)
+            ),
         );
     }
 
@@ -2097,7 +2316,9 @@ pub fn check(case: &Case, out: &mut CaseOut) {
         // a retransmission of the request that arrived before the TU answered may be answered as soon as
         // there is a response: one transmission, plus at most one copy per such retransmission
         let allowed = 1 + case.early.iter().filter(|e| matches!(e, Ev::Retx(_))).count();
-        if r.msgs.is_empty() || r.msgs.len() > allowed {
+        if r.msgs.is_empty() && unframed {
+            // the response is among the bytes that do not form a complete message: reported above
+        } else if r.msgs.is_empty() || r.msgs.len() > allowed {
             out.fail(
                 "c09.send/count",
                 format!("response {} produced {} messages on the wire right away (1..={allowed} expected)", r.code, r.msgs.len()),
@@ -2171,7 +2392,7 @@ pub fn property() -> Property {
     Property {
         fuzz: vec![],
         id: "C09",
-        rule: "case = request (INVITE or one of 9 other methods, never ACK; 1..5 Via values with transport token, sent-by IPv4/IPv6-reference/host name with or without port, parameters maddr (IPv4, IPv6 reference, host name) / rport (empty, with value) / received / ttl / branch / extension parameters (no value, token, quoted-string) in shuffled order, optional white space, one-per-line or comma-list layout, compact names; From/To with token or quoted display names, addr-spec or name-addr form, tag and extra parameters; Call-ID, CSeq, optional Timestamp, optional body) x packet source (IPv4/IPv6, equal to or different from the sent-by host, any port) x transport (datagram mock, inbound/outbound TCP and TLS mock connections) x 1..3 responses (provisionals then any code of 100..=699, with or without caller-supplied reason) produced by Endpoint::create_response and sent through the server transaction x datagram sockets of the endpoint (the single UDP socket, or 1..4 transports named UDP/DTLS on IPv4/IPv6 addresses with distinct ports in any registration order, the request arriving on any of them) x history (0..2 retransmissions of the request before the TU's first response; after the last response 0..4 events of: request retransmitted from the same source / another port / another ip, 1..2600 ms of virtual time, TU retransmits its 2xx; connection transports: TU retransmission only). Non-trivial = at least 2 Via values, or maddr/rport/received in the top Via, or sent-by host != packet source, or a connection transport, or an endpoint with several datagram sockets, or at least one further copy of a response observed on the wire; distinct by hash of the case.",
+        rule: "case = request (INVITE or one of 9 other methods, never ACK; 1..5 Via values with transport token, sent-by IPv4/IPv6-reference/host name with or without port, parameters maddr (IPv4, IPv6 reference, host name) / rport (empty, with value) / received / ttl / branch / extension parameters (no value, token, quoted-string) in shuffled order, optional white space, one-per-line or comma-list layout, compact names; From/To with token or quoted display names, addr-spec or name-addr form, tag and extra parameters; Call-ID, CSeq, optional Timestamp, optional body) x packet source (IPv4/IPv6, equal to or different from the sent-by host, any port) x transport (datagram mock, inbound/outbound TCP and TLS mock connections) x 1..3 responses (provisionals then any code of 100..=699, with or without caller-supplied reason) produced by Endpoint::create_response and sent through the server transaction x datagram sockets of the endpoint (the single UDP socket, or 1..4 transports named UDP/DTLS on IPv4/IPv6 addresses with distinct ports in any registration order, the request arriving on any of them) x history (0..2 retransmissions of the request before the TU's first response; after the last response 0..4 events of: request retransmitted from the same source / another port / another ip, 1..2600 ms of virtual time, TU retransmits its 2xx; connection transports: TU retransmission only) x body the TU attaches to each response (none, 1..20000 bytes) x connection transports: how ezk's end of the connection takes a write call (whole, or at most 1..8192 bytes per call so that a message needs 2..thousands of calls, optionally reporting a full buffer (Pending) before each piece). Non-trivial = at least 2 Via values, or maddr/rport/received in the top Via, or sent-by host != packet source, or a connection transport, or an endpoint with several datagram sockets, or at least one further copy of a response observed on the wire; distinct by hash of the case.",
         assumptions: vec![
             "display names are qdtext / tokens, From/To URIs carry none of the components RFC 3261 Table 1 excludes there (port, maddr/ttl/transport/lr/method, headers)",
             "host names are never dotted quads; IPv4-mapped IPv6 addresses are not generated",
@@ -2181,13 +2402,16 @@ pub fn property() -> Property {
             "history: retransmissions are byte-identical to the request; the virtual time of one case stays below 11 s (a server transaction lives 32 s); every message that leaves after the first transmission of a response is held to be a copy of that response: one whose bytes equal the first transmission is only checked for transport and destination, any other also for its content (signatures c09.retransmit/copy-differs:*); destination of a copy = the sec. 18.2.2 table evaluated for the packet source of ANY injected (re)transmission of the request (a maddr literal therefore admits one address only); a copy that repeats a wrong destination/transport of the first transmission is reported once (c09.dest/*), not twice",
             "not asserted: whether, when and how often copies of a response are sent (C06), messages sent before the TU's first response, the number of copies sent together with a response beyond 'at most one per retransmission that arrived before it'",
             "connection transports: 'same connection' is observed as the peer end of the mock connection the request was written to receiving the response, and the mock factories counting no further connect call",
+            "connection transports: a write call that is accepted for fewer bytes than offered, and a full-buffer report (Pending, woken at once) between two write calls, are what tokio's AsyncWrite contract allows a stream to do; the connection never fails, never closes and always takes at least one byte. The peer frames the stream by Content-Length alone: every byte it read must belong to a complete message (c09.wire/stream-not-framed-by-content-length otherwise; a response that is missing for that reason is not reported a second time as c09.send/count)",
+            "response bodies: the body is attached by the TU (OutgoingResponse::msg.body, plus a Content-Type header) before the response is given to the transaction; asserted: exactly one Content-Length, its value = number of bytes that follow the head = length of the attached body; the bytes of the body are not compared",
         ],
-        explanation: "status-codes: all 600 codes x {default, supplied reason} x {INVITE, non-INVITE} enumerated on a fixed two-Via request; routing-grid: the full product transport kind(5) x sent-by kind(3) x port(2) x source relation(3) x maddr kind(4) x rport kind(3) x received(2) x Via count(3) enumerated; sockets: 6 socket layouts (ports only / several local ips / both families / two transport kinds) x arrival socket x maddr kind(3) x rport(2) x source family(2) x INVITE/non-INVITE x (no | one) retransmission enumerated; retransmissions: INVITE/non-INVITE x final 200/486 x maddr kind(4) x rport(2) x sent-by port(2) x source relation(3) x one/two sockets x 9 history shapes (request retransmitted once/twice, from another port, from another ip, timer G only, mixed, before the first response, TU retransmission) enumerated; random: sampled requests with arbitrary parameters, layouts, sources, codes, reasons, socket sets and histories",
+        explanation: "status-codes: all 600 codes x {default, supplied reason} x {INVITE, non-INVITE} enumerated on a fixed two-Via request; routing-grid: the full product transport kind(5) x sent-by kind(3) x port(2) x source relation(3) x maddr kind(4) x rport kind(3) x received(2) x Via count(3) enumerated; sockets: 6 socket layouts (ports only / several local ips / both families / two transport kinds) x arrival socket x maddr kind(3) x rport(2) x source family(2) x INVITE/non-INVITE x (no | one) retransmission enumerated; retransmissions: INVITE/non-INVITE x final 200/486 x maddr kind(4) x rport(2) x sent-by port(2) x source relation(3) x one/two sockets x 9 history shapes (request retransmitted once/twice, from another port, from another ip, timer G only, mixed, before the first response, TU retransmission) enumerated; connection-writes: connection kind(4: inbound/outbound x TCP/TLS) x bytes taken per write call(7: 1, 3, 16, 100, 256, 1000, 4096) x full-buffer report between the pieces(2) x body of the final response(3: none, 40, 6000 bytes) x answer shape(4: non-INVITE 200 / 100+404 with reason, INVITE 180+200+TU retransmission / 100+486) enumerated; random: sampled requests with arbitrary parameters, layouts, sources, codes, reasons, socket sets, histories, response bodies and connection write behaviours",
         subs: vec![
             enum_sub("status-codes", status_cases, check),
             enum_sub("routing-grid", grid_cases, check),
             enum_sub("sockets", socket_cases, check),
             enum_sub("retransmissions", retransmission_cases, check),
+            enum_sub("connection-writes", connection_write_cases, check),
             prop_sub("random", strategy, 1500, 50000, check),
         ],
     }
@@ -2215,6 +2439,9 @@ mod dev {
             arrive_on: 0,
             early: vec![],
             history: vec![],
+            conn_chunk: 0,
+            conn_stall: false,
+            resp_bodies: vec![],
         };
         let percent = mk(vec![simple_via(H::V4([192, 0, 2, 9]), Some(5062), vec![VP::Branch("z9hG4bKab%41cd".into())])]);
         let quoted = mk(vec![
